@@ -243,7 +243,7 @@ def C18(ctx):
         for k, (i, _) in enumerate(allsn):
             owned[k % nw].append(i)
     ctx.extra["snapshots"] = {"linux": len(snaps["linux"]), "x86": len(snaps["x86"]), "x86+linux": len(snaps["x86+linux"]), "used_this_run": sorted(set(sum(owned, [])))}
-    std_check(ctx, [dict(harness="c18", aliases=["c18_snapshots"], cases=(450, 9000), max_ops=40, worker_env=lambda w: {"VERIF_C18_OWNED": ",".join(owned[w])})])
+    std_check(ctx, [dict(harness="c18", aliases=["c18_snapshots"], cases=(250, 9000), max_ops=40, worker_env=lambda w: {"VERIF_C18_OWNED": ",".join(owned[w])})])
 
 
 def C07(ctx):
